@@ -726,6 +726,13 @@ class Messenger(Connection):
 
             # Both sides immediately try TLS, Client initiates handshake
             if self._tls_attempt:
+                if self.__rx_buf:
+                    # nothing in the clear may follow the contact header,
+                    # it would be taken for part of the secured stream
+                    self._logger.error('Unsecured data before TLS handshake')
+                    self.close()
+                    return
+
                 # flush the buffers ahead of TLS
                 while self.__tx_buf:
                     self._avail_tx_notls()
